@@ -45,6 +45,10 @@ structure Job where
   check : List Comp             -- `checkMask()`
   upd   : List Comp             -- `updateMask()`
   last  : Option Ver            -- `last_update_version_` (none = null)
+  /-- `extraArchetypeFilterCheck`: a constant predicate of the archetype — here "has none of these" -/
+  afDeny : List Comp := []
+  /-- `extraChunkFilterCheck`: a constant predicate of the chunk index — here "index parity ≠ p" -/
+  cfSkip : Option Nat := none
 
 structure State where
   w       : Ver                 -- `World::version_`
@@ -55,6 +59,7 @@ structure State where
   nextEnt : Nat
   dflt    : Nat                 -- `archetype_chunk_size_info_.default_size`
   fns     : List ChunkFn        -- `get_chunk_size_functions_`
+  deps    : List (Comp × List Comp)   -- `dependencies_` (addDependency calls, in order)
   pending : Nat → Ent → Comp → Bool
   touched : Nat → Nat → Nat → Bool
 
@@ -66,9 +71,11 @@ structure JobSpec where
   req   : List Comp
   check : List Comp
   upd   : List Comp
+  afDeny : List Comp := []
+  cfSkip : Option Nat := none
 deriving Repr, DecidableEq
 
-def JobSpec.toJob (sp : JobSpec) : Job := ⟨sp.req, sp.check, sp.upd, none⟩
+def JobSpec.toJob (sp : JobSpec) : Job := ⟨sp.req, sp.check, sp.upd, none, sp.afDeny, sp.cfSkip⟩
 
 structure Config where
   jobs : List JobSpec
@@ -77,7 +84,7 @@ structure Config where
 
 def init (cfg : Config) : State :=
   { w := 0, mgr := cfg.mgr0, live := cfg.live, archs := [], jobs := cfg.jobs.map (·.toJob), nextEnt := 0,
-    dflt := 1024, fns := [], pending := fun _ _ _ => false, touched := fun _ _ _ => false }
+    dflt := 1024, fns := [], deps := [], pending := fun _ _ _ => false, touched := fun _ _ _ => false }
 
 /-! ## Entity lookup (`locations_`) -/
 
@@ -136,10 +143,18 @@ def Job.matchSt (J : Job) (fcheck : List Comp) (st : Comp → Ver) : Bool :=
   | none => true
   | some L => fcheck.isEmpty || fcheck.any (fun c => decide (L < st c))
 
-/-- `arch.isMatch(mask)`: the archetype has every required component -/
-def Job.reqOk (J : Job) (a : Arch) : Bool := J.req.all (a.mask.contains ·)
+/-- `arch.isMatch(mask) && job.extraArchetypeFilterCheck(arch)`: the archetype has every required component
+and passes the job's (constant) archetype filter -/
+def Job.reqOk (J : Job) (a : Arch) : Bool :=
+  J.req.all (a.mask.contains ·) && !J.afDeny.any (a.mask.contains ·)
 
-/-- `arch.size() > 0 && arch.isMatch(mask)` (user filters are constant `true`) -/
+/-- `job.extraChunkFilterCheck(arch, chunk)`: a constant predicate of the chunk index -/
+def Job.chunkOk (J : Job) (k : Nat) : Bool :=
+  match J.cfSkip with
+  | none => true
+  | some p => k % 2 != p
+
+/-- `arch.size() > 0 && arch.isMatch(mask) && job.extraArchetypeFilterCheck(arch)` -/
 def Job.matchesArch (J : Job) (a : Arch) : Bool := !a.ents.isEmpty && J.reqOk a
 
 def Arch.gMatch (a : Arch) (J : Job) : Bool := J.matchSt (a.fmask J.check) a.gst
@@ -148,9 +163,13 @@ def Arch.cMatch (a : Arch) (J : Job) (k : Nat) : Bool := J.matchSt (a.fmask J.ch
 /-- `filterArchetype` is entered -/
 def Arch.active (a : Arch) (J : Job) : Bool := J.matchesArch a && a.gMatch J
 
+/-- the per-chunk test of `filterArchetype`: the user's chunk filter FIRST, and only then `checkAndSet`
+(which stamps): a vetoed chunk is neither processed nor stamped -/
+def Arch.sel (a : Arch) (J : Job) (k : Nat) : Bool := J.chunkOk k && a.cMatch J k
+
 /-- chunk `k` is visited by the loop (`k ≤ lastChunkIndex`) and passes its check -/
 def Arch.procChunk (a : Arch) (J : Job) (k : Nat) : Bool :=
-  a.active J && decide (k * a.cs < a.ents.length) && a.cMatch J k
+  a.active J && decide (k * a.cs < a.ents.length) && a.sel J k
 
 /-- the chunk loop of `filterArchetype`: `n` chunks left, next chunk `k`,
 state `(is_prev_match, block.begin, block.end)` and the blocks added so far -/
@@ -170,7 +189,7 @@ def blocks (cs size : Nat) (m : Nat → Bool) : List (Nat × Nat) :=
 def blockIdx (bs : List (Nat × Nat)) : List Nat := bs.flatMap (fun p => List.range' p.1 (p.2 - p.1))
 
 def Arch.blocksOf (a : Arch) (J : Job) : List (Nat × Nat) :=
-  if a.active J then blocks a.cs a.ents.length (a.cMatch J) else []
+  if a.active J then blocks a.cs a.ents.length (a.sel J) else []
 
 def Arch.processed (a : Arch) (J : Job) : List Ent :=
   (blockIdx (a.blocksOf J)).filterMap (a.ents[·]?)
@@ -204,6 +223,7 @@ inductive Op where
   | destroyNow (e : Ent)
   | setDefault (n : Nat)
   | addFn (mask : List Comp) (min max : Nat)
+  | addDep (c : Comp) (ds : List Comp)
 deriving Repr, DecidableEq
 
 inductive Out where
@@ -290,8 +310,19 @@ def insertSorted (c : Comp) : List Comp → List Comp
 
 def normMask (m : List Comp) : List Comp := m.foldl (fun acc c => insertSorted c acc) []
 
-/-- `EntityManager::getArchetype(mask)`: existing archetype or a new one with the resolved chunk size -/
-def State.getArch (s : State) (m : List Comp) : Except (Nat × Nat) (State × Nat) :=
+/-- one round of `getExtraComponents`: add the declared dependencies of every component of `m` -/
+def closeStep (deps : List (Comp × List Comp)) (m : List Comp) : List Comp :=
+  normMask (m ++ m.flatMap (fun c => (deps.filter (·.1 = c)).flatMap (·.2)))
+
+/-- `mask.merge(getExtraComponents(mask))`: closure under the declared dependencies (the loop of
+`getExtraComponents` runs to a fixed point; with component ids `A..H` eight rounds reach it) -/
+def closeMask (deps : List (Comp × List Comp)) (m : List Comp) : List Comp :=
+  (List.range 8).foldl (fun acc _ => closeStep deps acc) (normMask m)
+
+/-- `EntityManager::getArchetype(mask)`: the archetype of the dependency-closed mask — an existing one, or a
+new one whose chunk size is resolved from the functions applied to the CLOSED mask -/
+def State.getArch (s : State) (m0 : List Comp) : Except (Nat × Nat) (State × Nat) :=
+  let m := closeMask s.deps m0
   match findArch s.archs m with
   | some ai => .ok (s, ai)
   | none =>
@@ -303,11 +334,12 @@ def State.getArch (s : State) (m : List Comp) : Except (Nat × Nat) (State × Na
            s.archs.length)
 
 /-- `externalMove`: push into the target, then `remove` from the source. The two archetypes differ, so the
-model's order (leave, then arrive) yields the same state. -/
+model's order (leave, then arrive) yields the same state. When the closed target mask is the entity's own
+archetype (removing a dependent whose master is present) nothing happens. -/
 def State.moveTo (s : State) (ai i : Nat) (e : Ent) (m : List Comp) : State × Out :=
   match s.getArch m with
   | .error (mx, mn) => (s, .error mx mn)
-  | .ok (s1, aj) => ((s1.depart ai i).arrive aj e, .ok)
+  | .ok (s1, aj) => if aj = ai then (s1, .noop) else ((s1.depart ai i).arrive aj e, .ok)
 
 def State.step (s : State) : Op → State × Out
   | .update => (s.worldUpdate, .none)
@@ -354,10 +386,43 @@ def State.step (s : State) : Op → State × Out
     | some (ai, i) => (s.depart ai i, .ok)
   | .setDefault n => if n = 0 then (s, .noop) else ({ s with dflt := n }, .ok)
   | .addFn m mn mx => ({ s with fns := s.fns ++ [⟨normMask m, mn, mx⟩] }, .ok)
+  | .addDep c ds => ({ s with deps := s.deps ++ [(c, ds)] }, .ok)
 
 def State.exec (s : State) (ops : List Op) : State := ops.foldl (fun s op => (s.step op).1) s
 
 /-- the state after a history, from an empty world -/
 def run (cfg : Config) (ops : List Op) : State := (init cfg).exec ops
+
+/-! ## Job bodies that modify the world
+
+`BaseJob::run` (when the filter selected something): `++world.version`, `lock()`, the body, `unlock()`.
+A body may obtain components for writing / mark them dirty (immediately, stamped with the live — already
+bumped — version) and may create / assign / remove / destroy through the command buffer, which is applied
+at `unlock()`, still at the same version. So a run with a body is the run followed by the body's immediate
+accesses and then its deferred commands (each entity gets at most one deferred command per body, so every
+command pack is a single command with its unlocked meaning). A run that selects nothing never calls the body. -/
+
+inductive HOp where
+  | plain (o : Op)
+  | runDo (j : Nat) (body : List Op)
+deriving Repr
+
+def Op.immediate : Op → Bool
+  | .getMut _ _ | .markDirty _ _ | .getConst _ _ => true
+  | _ => false
+
+/-- the operations a body contributes, in the order they take effect -/
+def bodyOrder (body : List Op) : List Op :=
+  body.filter (·.immediate) ++ body.filter (fun o => !o.immediate)
+
+def State.hstep (s : State) : HOp → State × Out
+  | .plain o => s.step o
+  | .runDo j body =>
+    let r := s.jobRun j
+    if r.2.isEmpty then (r.1, .ran []) else (r.1.exec (bodyOrder body), .ran r.2)
+
+def State.hexec (s : State) (hops : List HOp) : State := hops.foldl (fun s h => (s.hstep h).1) s
+
+def hrun (cfg : Config) (hops : List HOp) : State := (init cfg).hexec hops
 
 end Mustache.Versions
